@@ -183,6 +183,26 @@ func isXtext(s string) bool {
 	return true
 }
 
+// xtextDecode decodes a value that isXtext accepted.
+func xtextDecode(s string) string {
+	var b strings.Builder
+	for i := 0; i < len(s); i++ {
+		if s[i] == '+' && i+2 < len(s) {
+			hv := func(c byte) byte {
+				if c >= 'A' {
+					return c - 'A' + 10
+				}
+				return c - '0'
+			}
+			b.WriteByte(hv(s[i+1])<<4 | hv(s[i+2]))
+			i += 2
+			continue
+		}
+		b.WriteByte(s[i])
+	}
+	return b.String()
+}
+
 func isUpperHex(b byte) bool { return b >= '0' && b <= '9' || b >= 'A' && b <= 'F' }
 
 func classifyParams(s string, isMail bool, conf ExtConf) Verdict {
@@ -254,7 +274,11 @@ func classifyParams(s string, isMail bool, conf ExtConf) Verdict {
 				if val == "" || (val != "<>" && !isXtext(val)) {
 					return Invalid
 				}
-				unspec = unspec || false
+				// the decoded value is "<>" or a mailbox: outside a quoted local-part a mailbox
+				// contains no blank and no angle bracket
+				if dec := xtextDecode(val); dec != "<>" && !strings.Contains(dec, "\"") && strings.ContainsAny(dec, " \t<>") {
+					return Invalid
+				}
 			default:
 				return Invalid
 			}
